@@ -134,7 +134,9 @@ def main(prop, tier="quick", seed=0, jobs=None):
     nproc = jobs or int(os.environ.get("SYMX_JOBS", "0")) or os.cpu_count() or 4
     joblist = []
     for i, t in enumerate(tasks):
-        joblist.append((t.get("module", prop), t["fn"], t.get("shape", {}), t.get("opts", {}), alias, seed, i))
+        o = dict(t.get("opts", {}))
+        o.setdefault("cross_check", 3 if tier == "quick" else 12)
+        joblist.append((t.get("module", prop), t["fn"], t.get("shape", {}), o, alias, seed, i))
     if seed:
         import random
 
@@ -147,7 +149,7 @@ def main(prop, tier="quick", seed=0, jobs=None):
     results.sort(key=lambda r: r["idx"])
 
     # ---- aggregate
-    agg = dict(paths=0, decisions=0, queries=0, solver_s=0.0, forks=0, aborted=0, vacuous=0, unknown=0, truncated=0, crashed=0, infeasible=0)
+    agg = dict(paths=0, decisions=0, queries=0, solver_s=0.0, forks=0, aborted=0, vacuous=0, unknown=0, truncated=0, crashed=0, infeasible=0, cross_checked=0, cross_inconclusive=0, cross_disagree=0, refinements=0, refuted_by_refinement=0, frexp_window_assumptions=0)
     obl = {}
     errors, notes, samples, unknowns = [], [], [], []
     cexs = []
@@ -296,6 +298,9 @@ def main(prop, tier="quick", seed=0, jobs=None):
             truncated_paths=agg["truncated"],
             crashed_paths=agg["crashed"],
             replays_run=replays_run,
+            second_solver=dict(solver="cvc5 1.0.3 (binary)", obligations_re_decided_unsat=agg["cross_checked"], unknown_or_timeout=agg["cross_inconclusive"], disagreements=agg["cross_disagree"]),
+            uf_arithmetic_refinements=dict(attempted=agg["refinements"], counterexamples_refuted=agg["refuted_by_refinement"]),
+            frexp_window_assumptions=agg["frexp_window_assumptions"],
             known_findings_hit=[h[0]["text"] for h in known_hits],
             non_reproducing=[n["replay"] for n in unresolved],
             inconclusive=inconclusive,
@@ -316,6 +321,7 @@ def main(prop, tier="quick", seed=0, jobs=None):
             print(f"   {oid:55s} checked={o['checked']:6d} proved={o['proved']:6d} failed={o['failed']:4d} unknown={o['unknown']}")
     slow = sorted(results, key=lambda r: -r.get("wall_s", 0))[:3]
     print("   slowest tasks: " + "; ".join(f"{r['task']} {r['shape']} {r.get('wall_s', 0):.0f}s" for r in slow))
+    print(f"   second solver (cvc5) on dumped obligations: {agg['cross_checked']} agree (unsat), {agg['cross_inconclusive']} unknown/timeout, {agg['cross_disagree']} disagree")
     print(f"   model-library cross-check: {w_ok} witness inputs of proved paths re-run on the real numpy/scipy agree, {w_mis} mismatch, {w_skip} skipped")
     for d in w_detail[:6]:
         if "mismatch" in d:
